@@ -194,6 +194,7 @@ type Include struct {
 	Pairs    []Pair
 	Only     bool
 	IfExists bool
+	SSI      bool // written as {% ssi "file" parsed %}: rendered like an include without pairs
 }
 
 type ImportName struct{ Name, Alias string }
@@ -355,6 +356,10 @@ func (n Macro) src(b *strings.Builder) {
 }
 
 func (n Include) src(b *strings.Builder) {
+	if n.SSI {
+		b.WriteString(`{% ssi "` + n.File + `" parsed %}`)
+		return
+	}
 	b.WriteString("{% include ")
 	if n.Lazy != nil {
 		b.WriteString(n.Lazy.src())
